@@ -26,6 +26,7 @@ def analyse(lines):
     in_attempt = {}
     pending_drop = []
     trying, fails = {}, []
+    api_hold = {}
     for ts, who, role, rest in evs:
         pid = who.split(".")[0]
         is_worker = who.endswith("raft_log_wal_flush_worker")
@@ -41,6 +42,14 @@ def analyse(lines):
                     problems.append("a refused open returned %s instead of a lock error" % rest[1])
             elif rest[0] == "got":
                 stats["granted"] += 1
+                # ownership as the API reports it: from a successful open (logged after it
+                # returned) to the start of the drop (logged before it is called)
+                others = [w for w in api_hold if w != who]
+                if others:
+                    problems.append("%s was given the directory (%s) while %s still had it open" % (who, rest[1], others[0]))
+                api_hold[who] = True
+            elif rest[0] == "dropping":
+                api_hold.pop(who, None)
             elif rest[0] == "panic":
                 problems.append("open panicked")
             elif rest[0] in ("append", "flush", "purge") and not rest[1] in ("ok", "unit"):
